@@ -28,6 +28,7 @@ class QCircuitEnhanced(QCircuit):
         self.ancilla_lst = set()
         self.free_ancilla_lst = set()
         self.marked_ancillas = set()
+        self.reserved_ancillas = set()
 
     def map_qubit(self, name: Union[str, Symbol], index: int, promote=False):
         """Map a name to a qubit
@@ -89,10 +90,12 @@ class QCircuitEnhanced(QCircuit):
 
     def get_free_ancilla(self):
         """Get the first free ancilla available"""
-        if len(self.free_ancilla_lst) == 0:
+        available = self.free_ancilla_lst - self.reserved_ancillas
+        if len(available) == 0:
             anc = self.add_ancilla(is_free=False)
         else:
-            anc = self.free_ancilla_lst.pop()
+            anc = available.pop()
+            self.free_ancilla_lst.remove(anc)
 
         return anc
 
@@ -105,21 +108,40 @@ class QCircuitEnhanced(QCircuit):
         """Uncompute the whole circuit expect for the keep (symbols or qubit)"""
         # TODO: replace with + invert(keep)
         scopy = copy.deepcopy(self.gates)
+
+        # Qubits to restore: every gate target that is neither kept nor an already
+        # clean (free) ancilla, plus the free ancillas that the gates acting on
+        # them use as controls (those have to be recomputed during the replay)
         uncomputed = set()
+        for g, qbs, p in scopy:
+            if issubclass(g.__class__, gates.NopGate):
+                continue
+            if qbs[-1] not in keep and qbs[-1] not in self.free_ancilla_lst:
+                uncomputed.add(qbs[-1])
+
+        changed = True
+        while changed:
+            changed = False
+            for g, qbs, p in scopy:
+                if issubclass(g.__class__, gates.NopGate) or qbs[-1] not in uncomputed:
+                    continue
+                for c in qbs[:-1]:
+                    if (
+                        c in self.free_ancilla_lst
+                        and c not in keep
+                        and c not in uncomputed
+                    ):
+                        uncomputed.add(c)
+                        changed = True
 
         for g, qbs, p in reversed(scopy):
-            if (
-                issubclass(g.__class__, gates.NopGate)
-                or qbs[-1] in keep
-                or qbs[-1] in self.free_ancilla_lst
-            ):
+            if issubclass(g.__class__, gates.NopGate) or qbs[-1] not in uncomputed:
                 continue
-            uncomputed.add(qbs[-1])
-
-            if qbs[-1] in self.ancilla_lst:
-                self.free_ancilla_lst.add(qbs[-1])
-
             self.append(g, qbs, p)
+
+        for q in uncomputed:
+            if q in self.ancilla_lst:
+                self.free_ancilla_lst.add(q)
 
         return uncomputed
 
@@ -140,8 +162,28 @@ class QCircuitEnhanced(QCircuit):
             else:
                 new_gates_comp.append((g, ws, p))
 
+        # An ancilla still used (also indirectly) as control by a gate that is not
+        # uncomputed yet is clean now, but cannot be recycled: the final uncompute
+        # has to rebuild its value in order to undo that gate
+        still_needed = set()
+        for g, ws, p in new_gates_comp:
+            still_needed.update(ws[:-1])
+
+        changed = True
+        while changed:
+            changed = False
+            for g, ws, p in self.gates:  # type: ignore
+                if issubclass(g.__class__, gates.NopGate) or ws[-1] not in still_needed:
+                    continue
+                for c in ws[:-1]:
+                    if c not in still_needed:
+                        still_needed.add(c)
+                        changed = True
+
         for x in self.marked_ancillas:
             self.free_ancilla_lst.add(x)
+            if x in still_needed:
+                self.reserved_ancillas.add(x)
         self.marked_ancillas = self.marked_ancillas - uncomputed
         self.gates_computed = new_gates_comp[::-1]
 
